@@ -59,6 +59,7 @@ THEOREMS = [
     "Nix.C01.C01_dtype_handed_through",
     "Nix.C01.C01_spelling_exact",
     "Nix.C01.C01_spelling_created_type",
+    "Nix.C01.C01_reported_type",
     "Nix.C01.C01_seq_source",
     "Nix.C01.C01_seq_cast",
     "Nix.C01.C01_seq_cast_vs_conversion",
@@ -516,6 +517,14 @@ class Session:
         da.read_direct(buf)
         out["read_direct"] = ([int(v) for v in buf.shape], np_flat(buf, dtn))
         out["np.array"] = (lambda y: ([int(v) for v in y.shape], np_flat(y, dtn)))(np.array(da))
+        if 0 < len(da.shape) and 0 < da.shape[0] <= 6:
+            # iteration: one read per index of the first axis (a single value comes back as a length-1 array)
+            rows = [np.asarray(row) for row in da]
+            tail = [int(v) for v in da.shape[1:]]
+            if all(list(r.shape) == (tail or [1]) for r in rows):
+                out["iteration"] = ([len(rows)] + tail, [x for r in rows for x in np_flat(r, dtn)])
+            else:
+                out["iteration"] = ([list(r.shape) for r in rows], [])
         return out
 
 
@@ -543,7 +552,10 @@ def _apply_step(sess, st, k=1):
         elif op == "assign":
             da[spell_index(st[1], k)] = spell_arr(st[2])
         elif op == "append":
-            da.append(spell_arr(st[1]), axis=(np.int64(st[2]) if k % 3 == 2 else st[2]))
+            if st[2] == 0 and k % 2 == 1:
+                da.append(spell_arr(st[1]))             # the default axis
+            else:
+                da.append(spell_arr(st[1]), axis=(np.int64(st[2]) if k % 3 == 2 else st[2]))
         elif op == "resize":
             da.data_extent = tuple(st[1])
         elif op == "reopen":
@@ -1273,6 +1285,10 @@ class Gen:
         if c < 0.7:
             ddt, conv = self.data_dt(dt)
             x = r.random()
+            if x < 0.04 and rank == 1:
+                # a single value (0-d array / Python scalar): np.ascontiguousarray makes it a length-1 array
+                self.tag("append.scalar")
+                return ["append", self.spell(self.arr(ddt, [], tgt=conv), dt, "append"), 0], [shape[0] + 1]
             if x < 0.72:
                 axis = r.randrange(rank)
                 ds = list(shape)
@@ -1335,7 +1351,16 @@ class Gen:
         create = {"dtype": None, "shape": None, "data": None}
         cur = shape
         cdt = dt
-        if c < 0.45:
+        if c < 0.02:
+            # a single value as data: the array has shape (1,)
+            create["data"] = self.arr(dt, [])
+            shape = [1]
+            if dt == "string" or r.random() < 0.3:
+                create["dtype"] = dt
+            if r.random() < 0.3:
+                create["shape"] = [1]
+            self.tag("create.data.scalar")
+        elif c < 0.45:
             create["data"] = self.arr(dt, shape)
             if dt == "string" or r.random() < 0.3:
                 create["dtype"] = dt
@@ -1526,6 +1551,30 @@ def spelling_sweep():
     return out
 
 
+def reported_types(path):
+    """for every element type (native, and stored byte-swapped): an array of that type, and the element type of
+    arrays created with dtype=<what the first reports as data_type / dtype>: [(dtype name, getter, result)]"""
+    import nixio
+    out = []
+    f = nixio.File.open(path, nixio.FileMode.Overwrite)
+    try:
+        b = f.create_block("blk", "t")
+        for i, dtn in enumerate(DTYPES):
+            for j, arg in enumerate([np_dtype(dtn)] + ([np.dtype(dtn).newbyteorder(">")] if dtn not in (
+                    "uint8", "int8", "bool", "string") else [])):
+                a = b.create_data_array("a%d_%d" % (i, j), "t", dtype=arg, shape=(2,))
+                for which in ("data_type", "dtype"):
+                    try:
+                        c = b.create_data_array("c%d_%d_%s" % (i, j, which), "t", dtype=getattr(a, which), shape=(1,))
+                        r = dtype_name(c)
+                    except Exception as e:
+                        r = err_name(e)
+                    out.append((dtn, which, r))
+    finally:
+        f.close()
+    return out
+
+
 def gen_cases(ctx):
     g = Gen(ctx.rng)
     cases = []
@@ -1630,6 +1679,12 @@ def correspondence(ctx):
         got = {"ok": im["ok"]["first"].get("compressed")} if im.get("ok", {}).get("create") == "ok" else im
         if got != m:
             disagreements.append(Disagreement(t, m, got))
+    # what an array reports as its element type, used as the dtype argument of another array
+    reported = reported_types(ctx.tmpfile("rep.nix"))
+    rep_model = core.run_driver(PROP, [["reported", dtn, which] for dtn, which, _ in reported])
+    for (dtn, which, r), m in zip(reported, rep_model):
+        if m != {"ok": r}:
+            disagreements.append(Disagreement(["reported", dtn, which], m, {"ok": r}))
     shrunk = []
     for k, d in enumerate(disagreements[:3]):
         if isinstance(d.case, dict) and d.case.get("steps"):
@@ -1643,7 +1698,7 @@ def correspondence(ctx):
     disagreements = shrunk + disagreements
     idx = sorted(ctx.rng.sample(range(len(cases)), min(4, len(cases))))
     samples = [{"case": cases[k], "model": model_cases[k]} for k in idx]
-    return {"evaluations": len(cases) + len(triples), "distinct_nontrivial": len(seen),
+    return {"evaluations": len(cases) + len(triples) + len(reported), "distinct_nontrivial": len(seen),
             "rule": "one case = one history (creation + 2..12 write/assign/append/resize/reopen/read steps) on one "
                     "array in a fresh file, observed after every step (dtype, extent, len, size, gzip filter, complete "
                     "content by bit pattern); ranks 1-4, extents 0-4(5), 12 element types with extremes/NaN payloads/"
@@ -1704,6 +1759,12 @@ def oracle(ctx, broken, hints):
                     break
         if failures:
             break
+    # an array created with the element type another array reports has that array's element type
+    for dtn, which, r in reported_types(ctx.tmpfile("orep.nix")):
+        evaluated += 1
+        if r != dtn:
+            failures.append(Failure("an array created with dtype=<other array>.%s has another element type" % which,
+                                    ["reported", dtn, which], r, dtn, "DataArray.%s" % which))
     failures.sort(key=lambda f: len(core.canon(f.input)))
     return {"evaluations": evaluated, "observations_checked": checked, "failures": failures,
             "large_budget": bool(broken)}
@@ -1714,13 +1775,18 @@ def matches_known(entry, failure):
 
 
 def replay_failure(ctx, fj):
+    if isinstance(fj["input"], list) and fj["input"][:1] == ["reported"]:
+        for dtn, which, r in reported_types(ctx.tmpfile("replay-rep.nix")):
+            if [dtn, which] == fj["input"][1:] and r != dtn:
+                return Failure(fj["what"], fj["input"], r, dtn, "DataArray.%s" % which)
+        return None
     f, _ = oracle_case(fj["input"], ctx.tmpfile("replay.nix"))
     return f
 
 
 READY = True
 MANIFEST = {
-    "level_text": "Kernel-checked theorems (42, no Mathlib, axioms within propext/Classical.choice/Quot.sound) over a "
+    "level_text": "Kernel-checked theorems (43, no Mathlib, axioms within propext/Classical.choice/Quot.sound) over a "
                   "Lean model of nixio's array I/O logic, tied to the source by a compiler: on every run "
                   "harness/extract/datasetshape.py compiles DataSet.append (every check, comprehension, the resize, "
                   "the hyperslab write, the restore-on-failure), __getitem__/__setitem__/write_direct/len/shape/size/"
@@ -1744,7 +1810,8 @@ MANIFEST = {
                   "DataType members, dtype objects of either byte order, type strings): the DataType members and the "
                   "calls that hand the argument to h5py are regenerated from the source, and every spelling NumPy reads "
                   "as an element type t creates exactly what dtype=t creates; a created array has the element type NumPy "
-                  "means by the spelling. Sources that are Python sequences in a write / assignment (h5py casts them "
+                  "means by the spelling; what an array reports as its element type (compiled getters data_type / dtype) "
+                  "names that type, and an array created with it has the same element type. Sources that are Python sequences in a write / assignment (h5py casts them "
                   "with NumPy): the cast yields values of the element type, is the identity on them, refuses integers "
                   "out of range (OverflowError), NaN (ValueError), inf; a refused step leaves the array unchanged, a "
                   "performed one is the array step with the cast values.",
